@@ -72,6 +72,7 @@ func runC16(c *Ctx) {
 	r.Rule("threshold", "every append to ScanResult.Findings is control-dependent on the true edge of shouldInclude(<that finding>.Severity)")
 	r.Rule("severity-total", "severityOrder has an entry, and updateCounts a case, for every constant of type Severity; updateCounts sets TotalCount = len(Findings)")
 	r.Rule("counts-last", "in Scan and ScanSQL no call that can append a finding is followed by a return without updateCounts in between")
+	r.Rule("counts-once", "updateCounts (which increments the per-severity counters in place) either zeroes them first or is called at most once on every path of Scan / ScanSQL (never in a loop, never twice)")
 	r.Rule("pure", "no function reachable from Scan/ScanSQL stores into a field of an ast type, a Scanner field or a package-level variable (outside sync.Once initialisers)")
 	astPk := p.Pkg("pkg/sql/ast")
 	sec := p.Pkg("pkg/sql/security")
@@ -409,6 +410,78 @@ func c16Counts(c *Ctx, p *core.Prog) {
 			r.Violate("counts-last", name, p.FnPos(fn), bad+": TotalCount and the per-severity counts disagree with the findings list")
 		}
 	}
+	// counts-once: updateCounts adds to the per-severity counters; unless it zeroes them first it must run exactly once per result
+	upd := p.Method("pkg/sql/security", "Scanner", "updateCounts")
+	if upd == nil {
+		r.Fatal("anchor not found: (*Scanner).updateCounts")
+		return
+	}
+	incremented := map[string]bool{}
+	reset := map[string]bool{}
+	for _, b := range upd.Blocks {
+		for _, in := range b.Instrs {
+			st, ok := in.(*ssa.Store)
+			if !ok {
+				continue
+			}
+			fa, ok := st.Addr.(*ssa.FieldAddr)
+			if !ok {
+				continue
+			}
+			f := core.FieldName(fa.X.Type(), fa.Field)
+			if bo, ok := st.Val.(*ssa.BinOp); ok && bo.Op == token.ADD {
+				if ld, ok := bo.X.(*ssa.UnOp); ok {
+					if fa2, ok := ld.X.(*ssa.FieldAddr); ok && core.FieldName(fa2.X.Type(), fa2.Field) == f {
+						incremented[f] = true
+					}
+				}
+			}
+			if _, isC := st.Val.(*ssa.Const); isC && b == upd.Blocks[0] {
+				reset[f] = true
+			}
+		}
+	}
+	idempotent := len(incremented) > 0
+	for f := range incremented {
+		if !reset[f] {
+			idempotent = false
+		}
+	}
+	if len(incremented) == 0 {
+		r.OK("counts-once", "updateCounts", p.FnPos(upd), "no counter is incremented in place")
+		return
+	}
+	if idempotent {
+		r.OK("counts-once", "updateCounts", p.FnPos(upd), "counters are zeroed before they are recomputed: repeated calls are harmless")
+		return
+	}
+	nsites := 0
+	for _, fn := range p.SrcFuncs("pkg/sql/security") {
+		var sites []*ssa.Call
+		for _, b := range fn.Blocks {
+			for _, in := range b.Instrs {
+				if call, ok := in.(*ssa.Call); ok && call.Call.StaticCallee() == upd {
+					sites = append(sites, call)
+				}
+			}
+		}
+		for i, cs := range sites {
+			nsites++
+			key := core.FnName(fn) + sprintf("|updateCounts#%d", i+1)
+			again := false
+			for _, other := range sites {
+				if instrReaches(cs, other, nil) {
+					again = true
+				}
+			}
+			if again {
+				r.Violate("counts-once", key, p.Pos(cs.Pos()), "updateCounts adds to CriticalCount/HighCount/… without resetting them, and this call can be followed by another updateCounts on the same path (it sits in a loop or before a second call): findings counted before are counted again, so the per-severity counts exceed the findings listed")
+			} else {
+				r.OK("counts-once", key, p.Pos(cs.Pos()), "runs at most once per scan")
+			}
+		}
+	}
+	r.Floor("counts-once", nsites, 2, "updateCounts call sites")
 }
 
 func c16Pure(c *Ctx, p *core.Prog, astPath string) {
